@@ -1,7 +1,7 @@
 //! C01 — x86/amd64 lifter agrees with the processor on every instruction and state.
 use crate::bv::Val;
 use crate::lifter::{self, Lifted};
-use crate::native::{self, NState, Sandbox, CODE_OFF, MAP_BASE, PAD_FLAG_OFF, STACK_OFF, WIN_OFF, WIN_SIZE};
+use crate::native::{self, NState, Sandbox, CODE_OFF, CODE_TAIL, MAP_BASE, PADS_LEN, PADS_OFF, PAD_FLAG_OFF, STACK_OFF, TARGET_PAD_DELTA, WIN_OFF, WIN_SIZE};
 use crate::refil::{self, End, Fault, IntrinsicMode, Loc, RState, Step};
 use crate::report::{Acc, Describe};
 use crate::x86gen::{self, Enc};
@@ -332,17 +332,20 @@ fn gpr_index(name: &str) -> Option<usize> {
 impl Checker {
     fn check(&self, acc: &mut Acc, c: &Case, thorough: bool) {
         let arch = if c.mode64 { "amd64" } else { "x86" };
-        let code_addr = MAP_BASE + CODE_OFF;
         acc.count("encodings_tried", 1);
         // the CPU-side string must decode (in 64-bit mode) to exactly its length, the IL-side string likewise
-        let (ilen, mn) = match self.dis.decode(c.mode64, &c.il_bytes, code_addr) {
+        let (ilen, mn) = match self.dis.decode(c.mode64, &c.il_bytes, MAP_BASE + CODE_OFF) {
             Some(x) => x,
             None => return,
         };
-        let (clen, _) = match self.dis.decode(true, &c.cpu_bytes, code_addr) {
+        let (clen, _) = match self.dis.decode(true, &c.cpu_bytes, MAP_BASE + CODE_OFF) {
             Some(x) => x,
             None => return,
         };
+        // Both instructions END where the landing-pad page starts (see native.rs): the fall-through address and the
+        // branch-target pad are the same for the IL and for the CPU even when the CPU-side encoding is longer.
+        let inst_end = MAP_BASE + PADS_OFF;
+        let code_addr = inst_end - ilen as u64;
         let il_bytes = &c.il_bytes[..ilen];
         let cpu_bytes = &c.cpu_bytes[..clen];
         if !c.mode64 && clen != ilen + (c.cpu_bytes.len() - c.il_bytes.len()) && c.cpu_bytes.len() != c.il_bytes.len() + 1 {
@@ -389,23 +392,14 @@ impl Checker {
             return;
         }
         // ---- code page
-        let inst_end = code_addr + clen as u64;
-        let target_pad = inst_end + 32;
-        {
-            let code = self.sb.slice(CODE_OFF, 256);
-            for b in code.iter_mut() {
-                *b = 0xcc;
-            }
-            code[..clen].copy_from_slice(cpu_bytes);
-            let p1 = Sandbox::pad(inst_end, 1);
-            code[clen..clen + p1.len()].copy_from_slice(&p1);
-            let p2 = Sandbox::pad(target_pad, 2);
-            code[clen + 32..clen + 32 + p2.len()].copy_from_slice(&p2);
-        }
-        let code_bytes_full: Vec<u8> = self.sb.slice(CODE_OFF, 256).to_vec();
-        // what the IL sees at the code address: the IL-side instruction bytes followed by the pads
+        let target_pad = inst_end + TARGET_PAD_DELTA;
+        let native_addr = self.sb.set_instruction(cpu_bytes);
+        debug_assert_eq!(native_addr, inst_end - clen as u64);
+        let window_addr = inst_end - CODE_TAIL as u64;
+        let code_bytes_full: Vec<u8> = self.sb.code_window();
+        // what the IL sees around the code address: the instruction bytes followed by the pads
         let code_image: Arc<Vec<u8>> = {
-            let mut v = self.sb.slice(CODE_OFF, 256).to_vec();
+            let mut v = code_bytes_full.clone();
             if ilen != clen {
                 // 32-bit mode: the instruction the IL knows is shorter by the added prefix; reads of
                 // the code bytes themselves are not comparable
@@ -413,9 +407,8 @@ impl Checker {
             }
             Arc::new(v)
         };
-        // IL-side branch targets are relative to ilen; the native fall-through/target are relative to clen
-        let il_end = code_addr + ilen as u64;
-        let il_target = il_end + 32;
+        let il_end = inst_end;
+        let il_target = target_pad;
         let indirect = matches!(mn.as_str(), "jmp" | "call" | "ret" | "notrack jmp" | "notrack call") && is_rel_branch_bytes(il_bytes).is_none();
         // ---- state grid
         let is_shift = matches!(mn.as_str(), "shl" | "sal" | "shr" | "sar" | "rol" | "ror" | "rcl" | "rcr" | "shld" | "shrd");
@@ -526,7 +519,7 @@ impl Checker {
                 for i in 0..16 {
                     st.set(&format!("xmm{}", i), Val::new((ns.xmm[i][0] as u128) | ((ns.xmm[i][1] as u128) << 64), 128));
                 }
-                st.bg = vec![(MAP_BASE + WIN_OFF, Arc::new(win.clone())), (MAP_BASE + STACK_OFF, Arc::new(stack.clone())), (MAP_BASE + CODE_OFF, code_image.clone())];
+                st.bg = vec![(MAP_BASE + WIN_OFF, Arc::new(win.clone())), (MAP_BASE + STACK_OFF, Arc::new(stack.clone())), (window_addr, code_image.clone())];
                 st
             };
             // solve address registers: put the effective address of the first Load/Store into the window
@@ -561,14 +554,14 @@ impl Checker {
             }
             let mut il = mk_il(&ns, &win, &stack);
             // ---- run natively
-            self.sb.slice(CODE_OFF, 256).copy_from_slice(&code_bytes_full);
+            self.sb.set_instruction(cpu_bytes);
             self.sb.slice(WIN_OFF, WIN_SIZE).copy_from_slice(&win);
             self.sb.slice(STACK_OFF, WIN_SIZE).copy_from_slice(&stack);
             self.sb.slice(PAD_FLAG_OFF, 8)[0] = 0;
-            let (out, fault, _fa, _frip) = self.sb.run(&ns);
+            let (out, fault, _fa, _frip) = self.sb.run_at(native_addr, &ns);
             acc.count("evaluations", 1);
             // the instruction and the pads must be intact (a rip-relative store may hit them)
-            if self.sb.slice(CODE_OFF, 256) != &code_bytes_full[..] {
+            if self.sb.code_window() != code_bytes_full {
                 acc.count("native_clobbered_code", 1);
                 continue;
             }
@@ -664,10 +657,10 @@ impl Checker {
             }
             // IL stores into the code page (rip-relative operands): the CPU left the page as it was (checked
             // above), so the IL must have stored the bytes that were already there
-            let code_range = MAP_BASE + CODE_OFF..MAP_BASE + CODE_OFF + 256;
+            let code_range = window_addr..window_addr + (CODE_TAIL + PADS_LEN) as u64;
             for (a, b) in il.mem.iter().filter(|(a, _)| code_range.contains(a)) {
-                if !code_image.is_empty() && code_bytes_full[(*a - MAP_BASE - CODE_OFF) as usize] != *b {
-                    report(acc, "memory", format!("byte at {:#x} (code page): IL {:#x}, CPU {:#x}", a, b, code_bytes_full[(*a - MAP_BASE - CODE_OFF) as usize]));
+                if !code_image.is_empty() && code_bytes_full[(*a - window_addr) as usize] != *b {
+                    report(acc, "memory", format!("byte at {:#x} (code page): IL {:#x}, CPU {:#x}", a, b, code_bytes_full[(*a - window_addr) as usize]));
                     break;
                 }
             }
